@@ -6,6 +6,11 @@ From LV Require Import Route.Model Route.Proofs Route.Search Route.Dijkstra
 Import ListNotations.
 Local Open Scope Z_scope.
 
+(* [vm_compute] as a tactic would also normalise the keyops record that occurs
+   as a parameter inside the TYPES of the goal (very slow), so equalities between
+   states / entries are closed by a vm cast instead. *)
+Ltac vmr := match goal with |- _ = ?b => vm_cast_no_check (@eq_refl _ b) end.
+
 (* exact key arithmetic: probabilities in ppm, attempt cost 100 msat *)
 Definition KZ := ZK 100.
 
@@ -82,7 +87,7 @@ Definition fin0 : state KZ :=
 
 Example run0_reaches_source :
   grun g0 en0 rs0 1000000 0 3 init0 ls0 = Some fin0 /\ s_done KZ fin0 = true.
-Proof. vm_compute. split; reflexivity. Qed.
+Proof. split; [vmr | vm_compute; reflexivity]. Qed.
 
 Example fin0_reachable : greach KZ g0 en0 rs0 1000000 0 3 50 0 fin0.
 Proof.
@@ -114,19 +119,17 @@ Qed.
 Definition mid0 : state KZ :=
   match grun g0 en0 rs0 1000000 0 3 init0 (firstn 2 ls0) with Some s => s | None => init0 end.
 
+Definition x2 : dentry KZ :=
+  match dm_get KZ 2 (s_dm KZ mid0) with Some x => x | None => init_pivot KZ en0 1000000 3 50 end.
+
 Example mid0_finalised_stays :
-  exists x, finalised KZ mid0 2 x /\ finalised KZ fin0 2 x.
+  finalised KZ mid0 2 x2 /\ finalised KZ fin0 2 x2 /\ d_next x2 = Some (zero_inbound e23).
 Proof.
-  assert (H1 : grun g0 en0 rs0 1000000 0 3 init0 (firstn 2 ls0) = Some mid0)
-    by (vm_compute; reflexivity).
-  assert (H2 : grun g0 en0 rs0 1000000 0 3 mid0 (skipn 2 ls0) = Some fin0)
-    by (vm_compute; reflexivity).
-  assert (Hf : exists x, dm_get KZ 2 (s_dm KZ mid0) = Some x)
-    by (vm_compute; eexists; reflexivity).
-  destruct Hf as [x Hx]. exists x.
-  assert (Hfin : finalised KZ mid0 2 x).
-  { split; [exact Hx|]. vm_compute. intros []. }
-  split; [exact Hfin|].
+  assert (H1 : grun g0 en0 rs0 1000000 0 3 init0 (firstn 2 ls0) = Some mid0) by vmr.
+  assert (H2 : grun g0 en0 rs0 1000000 0 3 mid0 (skipn 2 ls0) = Some fin0) by vmr.
+  assert (Hfin : finalised KZ mid0 2 x2).
+  { split; [vmr|]. vm_compute. intros []. }
+  split; [exact Hfin|]. split; [|vm_compute; reflexivity].
   eapply (C19_chain_stable KZ KZ_ok g0 en0 rs0 1000000 0 3 50 0 ltac:(cbn; lia) ltac:(lia)).
   - eapply grun_greach; [apply gr_init | exact H1].
   - eapply grun_gsteps. exact H2.
@@ -177,20 +180,27 @@ Proof.
   intros H. zb. exists es. split; [reflexivity | assumption].
 Qed.
 
+Definition xV : dentry KZ :=
+  match dm_get KZ 1 (s_dm KZ stA) with Some x => x | None => init_pivot KZ en1 A13 3 50 end.
+Definition xV' : dentry KZ :=
+  match dm_get KZ 1 (s_dm KZ stB) with Some x => x | None => init_pivot KZ en1 A13 3 50 end.
+Definition stA' : state KZ :=
+  match exec KZ g1 en1 rs1 A13 0 3 0 stA (LPop KZ 2) with Some s => s | None => init1 end.
+
 Example C19_chain_stable_needs_int64_guard_refuted :
-  exists x x',
     (* the three segments are runs of the loop (no guards) *)
     run1 init1 lsA = Some stA /\ run1 stA lsB = Some stB /\ run1 stB lsC = Some stC /\
-    (* V = node 1 is finalised after lsA ... *)
-    finalised KZ stA 1 x /\
+    (* V = node 1 is finalised after lsA, with the entry reached over chan 11 ... *)
+    finalised KZ stA 1 xV /\ option_map e_chan (d_next xV) = Some 11 /\
     (* ... the only guard that fails in lsB is the int64 one ... *)
     guard_b 0 stA (LPop KZ 2) = true /\
-    (exists s, exec KZ g1 en1 rs1 A13 0 3 0 stA (LPop KZ 2) = Some s /\
-               guard_b 0 s (LRelax KZ eVU 50 1000000) = false /\
-               r_send (d_e (s_pivot KZ s)) eVU * r_tld 0 eVU * risk_factor >= two63) /\
-    (* ... and V's entry is then REWRITTEN and V is back on the heap *)
-    dm_get KZ 1 (s_dm KZ stB) = Some x' /\ x' <> x /\ In 1 (s_heap KZ stB) /\
-    d_weight x' < 0 /\
+    exec KZ g1 en1 rs1 A13 0 3 0 stA (LPop KZ 2) = Some stA' /\
+    guard_b 0 stA' (LRelax KZ eVU 50 1000000) = false /\
+    r_send (d_e (s_pivot KZ stA')) eVU * r_tld 0 eVU * risk_factor >= two63 /\
+    (* ... and V's entry is then REWRITTEN (now over chan 13, negative weight)
+       and V is back on the heap *)
+    dm_get KZ 1 (s_dm KZ stB) = Some xV' /\ option_map e_chan (d_next xV') = Some 13 /\
+    In 1 (s_heap KZ stB) /\ d_weight xV' < 0 /\
     (* the search ends at the source; the unravelled chain is S->V->U->T *)
     s_done KZ stC = true /\
     unravel KZ 3 3 (s_dm KZ stC) 0 = Some [eSV; eVU; eUT] /\
@@ -198,19 +208,13 @@ Example C19_chain_stable_needs_int64_guard_refuted :
        channel 14 would have to carry amt+5000000 > max_htlc = amt+2000 *)
     forall szs, route_valid g1 en1 rs1 A13 0 3 (new_route en1 0 A13 [eSV; eVU; eUT]) szs = false.
 Proof.
-  assert (Hx : exists x, dm_get KZ 1 (s_dm KZ stA) = Some x) by (vm_compute; eexists; reflexivity).
-  assert (Hx' : exists x', dm_get KZ 1 (s_dm KZ stB) = Some x') by (vm_compute; eexists; reflexivity).
-  destruct Hx as [x Hx]. destruct Hx' as [x' Hx']. exists x, x'.
+  split; [vmr|]. split; [vmr|]. split; [vmr|].
+  split; [split; [vmr | vm_compute; intros [H|[H|[]]]; discriminate]|].
+  split; [vm_compute; reflexivity|]. split; [reflexivity|]. split; [vmr|].
+  split; [vm_compute; reflexivity|]. split; [vm_compute; discriminate|].
+  split; [vmr|]. split; [vm_compute; reflexivity|]. split; [vm_compute; auto|].
   split; [vm_compute; reflexivity|]. split; [vm_compute; reflexivity|].
   split; [vm_compute; reflexivity|].
-  split; [split; [exact Hx | vm_compute; intros [H|[H|[]]]; discriminate]|].
-  split; [reflexivity|].
-  split.
-  { eexists. split; [vm_compute; reflexivity|]. split; vm_compute; [reflexivity | discriminate]. }
-  split; [exact Hx'|].
-  vm_compute in Hx, Hx'. inversion Hx; subst x. inversion Hx'; subst x'. clear Hx Hx'.
-  split; [discriminate|]. split; [vm_compute; auto|]. split; [vm_compute; reflexivity|].
-  split; [vm_compute; reflexivity|]. split; [vm_compute; reflexivity|].
   intros szs. destruct (route_valid _ _ _ _ _ _ _ szs) eqn:E; [|reflexivity].
   apply route_valid_hops_ok in E. destruct E as (es & Hr & Hh).
   vm_compute in Hr. inversion Hr; subst es. vm_compute in Hh. discriminate.
@@ -235,26 +239,26 @@ Definition stA2 := match run2 init2 lsA2 with Some s => s | None => init2 end.
 Definition stB2 := match run2 stA2 lsB2 with Some s => s | None => init2 end.
 Definition stC2 := match run2 stB2 lsC2 with Some s => s | None => init2 end.
 
+Definition yV : dentry KP :=
+  match dm_get KP 1 (s_dm KP stA2) with Some x => x | None => init_pivot KP en1 A6 3 50 end.
+Definition yV' : dentry KP :=
+  match dm_get KP 1 (s_dm KP stB2) with Some x => x | None => init_pivot KP en1 A6 3 50 end.
+
 Example C19_chain_stable_needs_prob_le_one_refuted :
-  exists x x',
     run2 init2 lsA2 = Some stA2 /\ run2 stA2 lsB2 = Some stB2 /\ run2 stB2 lsC2 = Some stC2 /\
-    finalised KP stA2 1 x /\
-    dm_get KP 1 (s_dm KP stB2) = Some x' /\ x' <> x /\ In 1 (s_heap KP stB2) /\
+    finalised KP stA2 1 yV /\ option_map e_chan (d_next yV) = Some 11 /\
+    dm_get KP 1 (s_dm KP stB2) = Some yV' /\ option_map e_chan (d_next yV') = Some 13 /\
+    In 1 (s_heap KP stB2) /\
     (* no int64 overflow anywhere: all weights are small and non-negative *)
-    0 <= d_weight x' < 100000000 /\
+    0 <= d_weight yV' < 100000000 /\
     s_done KP stC2 = true /\
     unravel KP 3 3 (s_dm KP stC2) 0 = Some [eSV'; eVU; eUT] /\
     forall szs, route_valid g2 en1 rs1 A6 0 3 (new_route en1 0 A6 [eSV'; eVU; eUT]) szs = false.
 Proof.
-  assert (Hx : exists x, dm_get KP 1 (s_dm KP stA2) = Some x) by (vm_compute; eexists; reflexivity).
-  assert (Hx' : exists x', dm_get KP 1 (s_dm KP stB2) = Some x') by (vm_compute; eexists; reflexivity).
-  destruct Hx as [x Hx]. destruct Hx' as [x' Hx']. exists x, x'.
-  split; [vm_compute; reflexivity|]. split; [vm_compute; reflexivity|].
-  split; [vm_compute; reflexivity|].
-  split; [split; [exact Hx | vm_compute; intros [H|[H|[]]]; discriminate]|].
-  split; [exact Hx'|].
-  vm_compute in Hx, Hx'. inversion Hx; subst x. inversion Hx'; subst x'. clear Hx Hx'.
-  split; [discriminate|]. split; [vm_compute; auto|].
+  split; [vmr|]. split; [vmr|]. split; [vmr|].
+  split; [split; [vmr | vm_compute; intros [H|[H|[]]]; discriminate]|].
+  split; [vm_compute; reflexivity|]. split; [vmr|]. split; [vm_compute; reflexivity|].
+  split; [vm_compute; auto|].
   split; [vm_compute; split; [discriminate | reflexivity]|].
   split; [vm_compute; reflexivity|]. split; [vm_compute; reflexivity|].
   intros szs. destruct (route_valid _ _ _ _ _ _ _ szs) eqn:E; [|reflexivity].
